@@ -11,8 +11,10 @@ OPT = ("def", "opt", [("sel", "int"), ("x", "int")], "int?", [("if", [(B("==", V
 LG = ("def", "lg", [("tag", "int"), ("v", "int")], "int", [("print", V("tag")), ("return", V("v"))])
 NTH = ("def", "nth", [("i", "int"), ("n", "int")], "int?", [("if", [(B(">=", V("i"), B("%", V("n"), I(3))), [("return", ("nil",))])], None), ("return", B("+", V("i"), I(10)))])
 
+# a function value whose fallback is a variable of the factory that made it (the factory has returned when the `or` runs)
+MKOR = ("def", "mkor", [("d", "int")], "fn(int?) -> int", [("def", "inner", [("q", "int?")], "int", [("return", ("or", V("q"), V("d")))]), ("return", V("inner"))])
 SOURCES = ["param", "local", "captured", "call", "element"]
-USES = ["or_const", "or_effect", "get", "eq_nil", "ne_nil", "eq_plain", "unwrap_stmt", "unwrap_if", "unwrap_while", "unwrap_expr"]
+USES = ["or_const", "or_effect", "get", "eq_nil", "ne_nil", "eq_plain", "unwrap_stmt", "unwrap_if", "unwrap_while", "unwrap_expr", "or_escaped", "nil_left_eq"]
 PLACES = ["top", "in_if", "in_loop", "in_else"]
 
 
@@ -25,6 +27,11 @@ def use_stmts(use, x):
         return [("print", B("+", ("or", x, I(5)), I(1)))]
     if use == "or_effect":
         return [("print", ("or", x, ("call", "lg", [I(77), V("v")])))]
+    if use == "or_escaped":
+        return [("assign", "kk", ("call", "mkor", [B("+", V("v"), I(100))])), ("print", ("call", "kk", [x])), ("print", ("call", "kk", [("nil",)]))]
+    if use == "nil_left_eq":
+        # nil on the LEFT of == / != against an optional that may be present
+        return [("assign", "nn", ("nil",), "int?"), ("print", B("==", V("nn"), x)), ("print", B("!=", V("nn"), x)), ("print", B("==", x, V("nn")))]
     if use == "get":
         return [("print", ("get", x)), ("print", I(1))]
     if use == "eq_nil":
@@ -55,7 +62,7 @@ def program(src, use, place):
         body = [("from", I(0), I(2), False, None, None, body + [("print", V("b"))])]
     t = [("assign", "b", ("nil",), "int?"), ("assign", "lo", ("call", "opt", [V("s0"), V("v")]), "int?"),
          ("assign", "ol", ("list", [("call", "opt", [V("s0"), V("v")]), I(3)]), "[int?...]")] + body + [("print", V("b")), ("return", I(0))]
-    prog = [("assign", "in0", ("in", 0)), ("assign", "in1", ("in", 1)), ("assign", "in2", ("in", 2)), OPT, LG, NTH,
+    prog = [("assign", "in0", ("in", 0)), ("assign", "in1", ("in", 1)), ("assign", "in2", ("in", 2)), OPT, LG, NTH, MKOR,
             ("assign", "g", ("call", "opt", [V("in0"), V("in2")]), "int?"),
             ("def", "t", [("s0", "int"), ("s1", "int"), ("v", "int"), ("o", "int?")], "int", t),
             ("print", ("call", "t", [V("in0"), V("in1"), V("in2"), ("call", "opt", [V("in0"), V("in2")])])),
